@@ -69,10 +69,10 @@ func calleePaths(f *ssa.Function) []calleePath {
 	q := &PathQuery{Fn: f, Sink: IsReturn, MaxStates: 4000, depth: 1, NoSummaries: true,
 		Event: func(in ssa.Instruction) string {
 			switch in.(type) {
-			case ssa.CallInstruction, *ssa.Store, *ssa.MapUpdate, *ssa.Send, *ssa.RunDefers:
-				return "i"
+			case *ssa.DebugRef, *ssa.Phi, *ssa.Jump, *ssa.If, *ssa.Return:
+				return ""
 			}
-			return ""
+			return "i" // every instruction a rule's tagging function may care about (receives, ranges, lookups, …)
 		}}
 	states, err := q.Run()
 	if err != nil || len(states) == 0 || len(states) > maxInlinePaths {
